@@ -1,4 +1,5 @@
 mod alias;
+mod comp;
 mod ctor;
 mod disc;
 mod fl;
@@ -28,6 +29,7 @@ fn main() {
         "sup-drive" => sup::drive(rest),
         "disc-drive" => disc::drive(rest),
         "geom-drive" => geom::drive(rest),
+        "comp-drive" => comp::drive(rest),
         "zig-export" => zig::export(rest),
         "zig-drive" => zig::drive(rest),
         "tree-drive-floats" => tree::drive_floats(rest),
